@@ -18,10 +18,24 @@
 //!   of <fmt> <fixture> <muts>      oracle-only, input = fixture file with mutations applied
 //!                                  (muts: `-` or comma list of s<pos>=<hh> | t<len> | a<hex> |
 //!                                  i<pos>=<hex> | d<pos>+<n>); both sides answer `-`
+//!   rp <ver> <recs>                root builder program (recs: `;` list of fdid,ckey,hash|-,locale,
+//!                                  content in insertion order): RootBuilder::build, answered
+//!                                  `ok n=<len> h=<fnv64 of the bytes>` / `err`, compared with the
+//!                                  model (C03's Model/RootFile.build); O: the parsed records are the
+//!                                  program's records (builder-form claim)
+//!   ap <ks> <ob> <entries>         archive-index builder program on a chosen layout (entries: `;`
+//!                                  list of key,size,offset): with_config(ks, ob, 4) -> build -> parse
+//!                                  -> from_archive_index -> build -> parse, answered
+//!                                  `ok n=<count> h=<fnv64 of the entry listing>` / `err`, compared
+//!                                  with C03's Model/ArchiveIndex.buildParse applied twice
+//! Every accepted input of a format that has a builder-as-mutator constructor (archive index, root,
+//! install, download, encoding) is additionally taken through parsed value -> from_*(value) ->
+//! [add an entry -> remove it] -> build -> parse and must come back with the same logical content.
 use cascette_crypto::md5::FileDataId;
 use cascette_crypto::{ContentKey, EncodingKey};
 use cascette_formats::CascFormat;
 use cascette_formats::archive::{ArchiveGroup, ArchiveGroupBuilder, ArchiveGroupEntry, ArchiveIndex, ArchiveIndexBuilder};
+use cascette_formats::archive::IndexEntry;
 use cascette_formats::blte::{BlteBuilder, BlteFile, CompressionMode};
 use cascette_formats::bpsv::{BpsvBuilder, BpsvDocument, BpsvField, BpsvType, BpsvValue};
 use cascette_formats::config::{BuildConfig, CdnConfig, KeyringConfig, PatchConfig, PatchEntry as PatchCfgEntry, ProductConfig};
@@ -347,15 +361,97 @@ fn cdbg<T: std::fmt::Debug>(v: &T) -> String {
     canon_debug(&format!("{v:?}"))
 }
 
-fn root_logical(r: &RootFile) -> String {
-    let mut recs: Vec<String> = vec![];
+/// one root record with the flags of its block: (FileDataID, content key, name hash, locale, content)
+type RRec = (u32, [u8; 16], Option<u64>, u32, u64);
+
+fn rrec_str(r: &RRec) -> String {
+    format!("{}:{}:{:?}:{:x}:{:x}", r.0, hex(&r.1), r.2, r.3, r.4)
+}
+
+fn root_recs(r: &RootFile) -> Vec<RRec> {
+    let mut recs = vec![];
     for b in &r.blocks {
         for rec in &b.records {
-            recs.push(format!("{}:{}:{:?}:{:x}:{:x}", rec.file_data_id.get(), hex(rec.content_key.as_bytes()), rec.name_hash, b.locale_flags().value(), b.content_flags().value));
+            recs.push((rec.file_data_id.get(), *rec.content_key.as_bytes(), rec.name_hash, b.locale_flags().value(), b.content_flags().value));
         }
     }
-    recs.sort();
-    format!("{:?} n={} {}", r.version, recs.len(), recs.join(" "))
+    recs
+}
+
+/// logical content of a root: version + the MULTISET of records (sorted; a FileDataID listed twice
+/// in one block counts twice)
+fn root_logical_of(ver: RootVersion, recs: &[RRec]) -> String {
+    let mut v: Vec<String> = recs.iter().map(rrec_str).collect();
+    v.sort();
+    format!("{:?} n={} {}", ver, v.len(), v.join(" "))
+}
+
+fn root_logical(r: &RootFile) -> String {
+    root_logical_of(r.version, &root_recs(r))
+}
+
+/// RootBuilder(V2) output with these counts has a classic header that the header reader takes for
+/// an extended one (C03 finding root-v2-small-header-ambiguity)
+fn v2_window_counts(ver: RootVersion, total: usize, named: usize) -> bool {
+    ver == RootVersion::V2 && (16..100).contains(&total) && named < 10
+}
+
+fn v2_window_recs(ver: RootVersion, recs: &[RRec]) -> bool {
+    v2_window_counts(ver, recs.len(), recs.iter().filter(|r| r.2.is_some()).count())
+}
+
+/// bytes that START like a classic V2 header (magic, total, named) in that window — and are not a
+/// genuine extended (V3/V4) file: a genuine one has header_size / version in the same two words,
+/// but then it parses to exactly the number of records its own total_files word states
+fn root_v2_window(b: &[u8]) -> bool {
+    let magic = b.len() >= 12 && (&b[..4] == b"TSFM" || &b[..4] == b"MFST");
+    let (t, nm) = if magic { (u32::from_le_bytes([b[4], b[5], b[6], b[7]]), u32::from_le_bytes([b[8], b[9], b[10], b[11]])) } else { (0, 0) };
+    if !(magic && (16..100).contains(&t) && nm < 10) {
+        return false;
+    }
+    let genuine_ext = b.len() >= 20
+        && &b[..4] == b"TSFM"
+        && catch(AssertUnwindSafe(|| RootFile::parse(b))).ok().and_then(|r| r.ok()).is_some_and(|r| {
+            let n: usize = r.blocks.iter().map(|x| x.records.len()).sum();
+            n > 0 && n as u32 == u32::from_le_bytes([b[12], b[13], b[14], b[15]])
+        });
+    !genuine_ext
+}
+
+/// one archive-index entry as the file stores it: key, size, 48-bit location (archive index in the
+/// top 16 bits for the 6-byte archive-group layout)
+fn aidx_entry_str(e: &IndexEntry) -> String {
+    format!("{}:{}:{}", hex(&e.encoding_key), e.size, ((e.archive_index.unwrap_or(0) as u64) << 32) + e.offset)
+}
+
+/// logical content of an archive index: record layout of the footer + entries
+fn aidx_logical(i: &ArchiveIndex) -> String {
+    let es: Vec<String> = i.entries.iter().map(aidx_entry_str).collect();
+    format!("ks={} ob={} sb={} hb={} n={} entries={}", i.footer.ekey_length, i.footer.offset_bytes, i.footer.size_bytes, i.footer.footer_hash_bytes, i.footer.element_count, es.join(";"))
+}
+
+fn aidx_parse(b: &[u8]) -> Result<ArchiveIndex, String> {
+    ArchiveIndex::parse(&mut Cursor::new(b)).map_err(es)
+}
+
+fn aidx_builder_bytes(b: ArchiveIndexBuilder) -> Result<Vec<u8>, String> {
+    let mut out = Vec::new();
+    b.build(Cursor::new(&mut out)).map_err(es)?;
+    Ok(out)
+}
+
+/// logical content of a download manifest: header through its accessors, entries, tags
+fn dl_logical(m: &DownloadManifest) -> String {
+    format!("v={} cks={} fs={} bp={} entries={:?} tags={:?}", m.header.version(), m.header.has_checksum(), m.header.flag_size(), m.header.base_priority(), m.entries, m.tags)
+}
+
+/// logical content of an encoding file: page sizes + the two entry tables with ESpec STRINGS
+fn enc_logical(e: &EncodingFile) -> String {
+    let mut ck: Vec<String> = e.ckey_pages.iter().flat_map(|p| p.entries.iter()).map(|x| format!("{}:{}:{}", hex(x.content_key.as_bytes()), x.file_size, x.encoding_keys.iter().map(|k| hex(k.as_bytes())).collect::<Vec<_>>().join("+"))).collect();
+    let mut ek: Vec<String> = e.ekey_pages.iter().flat_map(|p| p.entries.iter()).map(|x| format!("{}:{}:{:?}", hex(x.encoding_key.as_bytes()), x.file_size, e.espec_table.get(x.espec_index))).collect();
+    ck.sort();
+    ek.sort();
+    format!("cps={} eps={} ckeys={} ekeys={} ck=[{}] ek=[{}]", e.header.ckey_page_size_kb, e.header.ekey_page_size_kb, ck.len(), ek.len(), ck.join(" "), ek.join(" "))
 }
 
 fn tvfs_logical(t: &TvfsFile) -> String {
@@ -534,7 +630,14 @@ fn shape(fmt: &str, stage: &str, input: &[u8], out: &Out) -> String {
     let tail = match stage {
         "rebuild-changes-content" => {
             let f = out.field.clone().unwrap_or_default();
-            if fmt == "parchive" && ["v", "fk", "ok", "pk", "bits", "flags"].contains(&f.as_str()) { "header".to_string() } else { f }
+            if fmt == "parchive" && ["v", "fk", "ok", "pk", "bits", "flags"].contains(&f.as_str()) {
+                "header".to_string()
+            } else if fmt == "root" {
+                // the logical content of a root is one record multiset: no field names to point at
+                "records".to_string()
+            } else {
+                f
+            }
         }
         "accepted-not-rebuildable" | "rebuilt-not-parseable" | "second-build-fails" | "build-panics" => slug(&out.detail),
         _ => String::new(),
@@ -566,11 +669,7 @@ fn shape(fmt: &str, stage: &str, input: &[u8], out: &Out) -> String {
             // a classic V2 header (magic, total, named) whose counts fall into the window the
             // header reader takes for an extended header (C03 finding root-v2-small-header-ambiguity),
             // in the input or in the bytes the rebuild wrote
-            let win = |b: &[u8]| {
-                let magic = b.len() >= 12 && (&b[..4] == b"TSFM" || &b[..4] == b"MFST");
-                let (t, nm) = if magic { (u32::from_le_bytes([b[4], b[5], b[6], b[7]]), u32::from_le_bytes([b[8], b[9], b[10], b[11]])) } else { (0, 0) };
-                magic && (16..100).contains(&t) && nm < 10
-            };
+            let win = root_v2_window;
             let window = win(input) || out.rebuilt.as_deref().is_some_and(win);
             match RootFile::parse(input) {
                 _ if window => "v2-small-header-window".to_string(),
@@ -584,7 +683,14 @@ fn shape(fmt: &str, stage: &str, input: &[u8], out: &Out) -> String {
         "encoding" => {
             let esz = be32(input, 18) as usize;
             let blk = input.get(22..22 + esz).unwrap_or(&[]);
-            if std::str::from_utf8(blk).is_err() { "espec-not-utf8".to_string() } else { String::new() }
+            if std::str::from_utf8(blk).is_err() {
+                "espec-not-utf8".to_string()
+            } else if <EncodingFile as CascFormat>::parse(input).is_ok_and(|e| e.ekey_pages.iter().flat_map(|p| p.entries.iter()).any(|x| e.espec_table.get(x.espec_index).is_none())) {
+                // an EKey entry whose ESpec index points outside the ESpec table (the parser accepts it)
+                "espec-index-out-of-table".to_string()
+            } else {
+                String::new()
+            }
         }
         "aidx" | "agroup" => {
             // footer fields that deviate from the usual layout
@@ -665,6 +771,259 @@ fn load_fixtures() -> Vec<(String, String, Vec<u8>)> {
     v
 }
 
+/// outcome of one builder-as-mutator check: (failing step, detail, bytes the step wrote)
+type FromFail = (String, String, Option<Vec<u8>>);
+
+/// Builder-as-mutator constructors (`from_*`): the parsed value `v` of an accepted input is loaded
+/// into the format's builder, optionally modified (one entry added, then removed again), built,
+/// serialised and parsed back; the logical content must be the one of `v` (plus the added entry).
+/// Every choice is a function of the input bytes, so the input's own request line replays it.
+/// Returns the tally label and the failures.
+fn from_ctor(fmt: &str, input: &[u8], rebuilt: &[u8]) -> Option<(String, Vec<FromFail>)> {
+    let h = fnv64(input);
+    let fails: std::cell::RefCell<Vec<FromFail>> = std::cell::RefCell::new(vec![]);
+    let fail = |step: &str, detail: String, bytes: Option<Vec<u8>>| fails.borrow_mut().push((step.to_string(), detail, bytes));
+    let first_diff = |a: &str, b: &str| {
+        let at = a.bytes().zip(b.bytes()).position(|(x, y)| x != y).unwrap_or(a.len().min(b.len()));
+        let cut = |s: &str| s.chars().skip(at.saturating_sub(30)).take(100).collect::<String>();
+        format!("want …{}… got …{}…", cut(a), cut(b))
+    };
+    let label;
+    match fmt {
+        "aidx" => {
+            let v = aidx_parse(input).ok()?;
+            let (ks, ob) = (v.footer.ekey_length as usize, v.footer.offset_bytes);
+            label = format!("aidx:from_archive_index(ks={ks},ob={ob})");
+            let l0 = aidx_logical(&v);
+            // (1) unmodified
+            match catch(AssertUnwindSafe(|| aidx_builder_bytes(ArchiveIndexBuilder::from_archive_index(&v)))) {
+                Err(p) => fail("from-archive-index-build-fails", format!("panic: {p}"), None),
+                Ok(Err(e)) => fail("from-archive-index-build-fails", e, None),
+                Ok(Ok(b)) => match catch(AssertUnwindSafe(|| aidx_parse(&b))) {
+                    Ok(Ok(v2)) => {
+                        let l = aidx_logical(&v2);
+                        // (bytes are not compared with v.build(): that writer re-emits the footer's
+                        // toc_hash / version as read, the builder computes its own)
+                        if l != l0 {
+                            fail("from-archive-index-changes-content", first_diff(&l0, &l), Some(b));
+                        }
+                    }
+                    Ok(Err(e)) => fail("from-archive-index-not-parseable", e, Some(b)),
+                    Err(p) => fail("from-archive-index-not-parseable", format!("panic: {p}"), Some(b)),
+                },
+            }
+            // (2) add one entry (a key the index does not hold; location at the top of the offset
+            // width), (3) remove it again
+            if ks > 0 && fails.borrow().is_empty() {
+                let mut key: Vec<u8> = (0..ks).map(|i| (h >> (8 * (i % 8))) as u8 ^ (i as u8).wrapping_mul(0x3b)).collect();
+                key[0] |= 1;
+                while v.entries.iter().any(|e| e.encoding_key == key) {
+                    let l = key.len() - 1;
+                    key[l] = key[l].wrapping_add(1);
+                }
+                let size = (h >> 13) as u32 | 1;
+                let offset: u64 = match ob {
+                    4 => 0x8000_0000 | (h >> 32),
+                    5 => 0x80_0000_0000 | (h >> 25),
+                    _ => 0x8000_0000_0000 | (h >> 17),
+                };
+                let added = IndexEntry { encoding_key: key.clone(), size, offset: if ob == 6 { offset & 0xFFFF_FFFF } else { offset }, archive_index: if ob == 6 { Some((offset >> 32) as u16) } else { None } };
+                let mut want = v.entries.clone();
+                want.push(added);
+                want.sort();
+                let want_l = want.iter().map(aidx_entry_str).collect::<Vec<_>>().join(";");
+                let step = catch(AssertUnwindSafe(|| {
+                    let mut b = ArchiveIndexBuilder::from_archive_index(&v);
+                    b.add_entry(key.clone(), size, offset);
+                    let bytes = aidx_builder_bytes(b)?;
+                    let v2 = aidx_parse(&bytes).map_err(|e| format!("parse: {e}"))?;
+                    Ok::<_, String>((bytes, v2))
+                }));
+                match step {
+                    Ok(Ok((bytes, v2))) => {
+                        let got_l = v2.entries.iter().map(aidx_entry_str).collect::<Vec<_>>().join(";");
+                        if got_l != want_l || v2.footer.offset_bytes != ob || v2.footer.ekey_length as usize != ks {
+                            fail("from-archive-index-add-changes-content", first_diff(&want_l, &got_l), Some(bytes));
+                        } else {
+                            let back = catch(AssertUnwindSafe(|| {
+                                let mut b = ArchiveIndexBuilder::from_archive_index(&v2);
+                                if !b.remove_entry(&key) {
+                                    return Err("remove_entry does not find the added key".to_string());
+                                }
+                                let bytes = aidx_builder_bytes(b)?;
+                                let v3 = aidx_parse(&bytes).map_err(|e| format!("parse: {e}"))?;
+                                Ok::<_, String>((bytes, aidx_logical(&v3)))
+                            }));
+                            match back {
+                                Ok(Ok((bytes, l))) if l != l0 => fail("from-archive-index-remove-changes-content", first_diff(&l0, &l), Some(bytes)),
+                                Ok(Ok(_)) => {}
+                                Ok(Err(e)) => fail("from-archive-index-remove-fails", e, None),
+                                Err(p) => fail("from-archive-index-remove-fails", format!("panic: {p}"), None),
+                            }
+                        }
+                    }
+                    Ok(Err(e)) => fail("from-archive-index-add-fails", e, None),
+                    Err(p) => fail("from-archive-index-add-fails", format!("panic: {p}"), None),
+                }
+            }
+        }
+        "root" => {
+            let v = RootFile::parse(input).ok()?;
+            label = format!("root:from_root_file({:?})", v.version);
+            let recs = root_recs(&v);
+            let l0 = root_logical_of(v.version, &recs);
+            match catch(AssertUnwindSafe(|| RootBuilder::from_root_file(&v).build().map_err(es))) {
+                Err(p) => fail("from-root-file-build-fails", format!("panic: {p}"), None),
+                Ok(Err(e)) => fail("from-root-file-build-fails", e, None),
+                Ok(Ok(b)) => match catch(AssertUnwindSafe(|| RootFile::parse(&b).map_err(es))) {
+                    Ok(Ok(v2)) => {
+                        let l = root_logical(&v2);
+                        if l != l0 {
+                            fail("from-root-file-changes-content", first_diff(&l0, &l), Some(b));
+                        } else if b != rebuilt {
+                            fail("from-root-file-bytes-differ", format!("from_root_file(v).build() writes {} bytes, v.build() {} bytes with the same content", b.len(), rebuilt.len()), Some(b));
+                        }
+                    }
+                    Ok(Err(e)) => fail("from-root-file-not-parseable", e, Some(b)),
+                    Err(p) => fail("from-root-file-not-parseable", format!("panic: {p}"), Some(b)),
+                },
+            }
+            // add one record to an existing block — its FileDataID repeats one of the block, is a
+            // neighbour of one, or an extreme — then remove that FileDataID again
+            if !recs.is_empty() && fails.borrow().is_empty() {
+                let base = recs[(h % recs.len() as u64) as usize];
+                let (loc, cf) = (base.3, base.4);
+                let named = v.version == RootVersion::V1 || cf & ContentFlags::NO_NAME_HASH == 0;
+                let fd = match (h >> 8) % 6 {
+                    0 | 1 => base.0,
+                    2 => base.0.wrapping_add(1),
+                    3 => base.0.wrapping_sub(1),
+                    4 => 0,
+                    _ => u32::MAX,
+                };
+                let mut ck = [0u8; 16];
+                for (i, x) in ck.iter_mut().enumerate() {
+                    *x = (h >> (8 * (i % 8))) as u8 ^ (i as u8).wrapping_mul(0x55);
+                }
+                let nh = if named { Some(h.rotate_left(17)) } else { None };
+                let mut want = recs.clone();
+                want.push((fd, ck, nh, loc, cf));
+                let want_l = root_logical_of(v.version, &want);
+                let step = catch(AssertUnwindSafe(|| {
+                    let mut b = RootBuilder::from_root_file(&v);
+                    b.add_file_with_hash(FileDataId::new(fd), ContentKey::from_bytes(ck), nh, LocaleFlags::new(loc), ContentFlags::new(cf));
+                    let bytes = b.build().map_err(es)?;
+                    if v2_window_recs(v.version, &want) {
+                        return Ok(None);
+                    }
+                    let v2 = RootFile::parse(&bytes).map_err(|e| format!("parse: {e}"))?;
+                    Ok::<_, String>(Some((bytes, v2)))
+                }));
+                match step {
+                    Ok(Ok(None)) => {}
+                    Ok(Ok(Some((bytes, v2)))) => {
+                        let got_l = root_logical(&v2);
+                        if got_l != want_l {
+                            fail("from-root-file-add-changes-content", first_diff(&want_l, &got_l), Some(bytes));
+                        } else {
+                            let rest: Vec<RRec> = recs.iter().filter(|r| r.0 != fd).copied().collect();
+                            if !rest.is_empty() {
+                                let want_l = root_logical_of(v.version, &rest);
+                                let back = catch(AssertUnwindSafe(|| {
+                                    let mut b = RootBuilder::from_root_file(&v2);
+                                    if !b.remove_file(FileDataId::new(fd)) {
+                                        return Err("remove_file does not find the added FileDataID".to_string());
+                                    }
+                                    let bytes = b.build().map_err(es)?;
+                                    if v2_window_recs(v.version, &rest) {
+                                        return Ok(None);
+                                    }
+                                    let v3 = RootFile::parse(&bytes).map_err(|e| format!("parse: {e}"))?;
+                                    Ok::<_, String>(Some((bytes, root_logical(&v3))))
+                                }));
+                                match back {
+                                    Ok(Ok(Some((bytes, l)))) if l != want_l => fail("from-root-file-remove-changes-content", first_diff(&want_l, &l), Some(bytes)),
+                                    Ok(Ok(_)) => {}
+                                    Ok(Err(e)) => fail("from-root-file-remove-fails", e, None),
+                                    Err(p) => fail("from-root-file-remove-fails", format!("panic: {p}"), None),
+                                }
+                            }
+                        }
+                    }
+                    Ok(Err(e)) => fail("from-root-file-add-fails", e, None),
+                    Err(p) => fail("from-root-file-add-fails", format!("panic: {p}"), None),
+                }
+            }
+        }
+        "install" => {
+            let v = InstallManifest::parse(input).ok()?;
+            label = format!("install:from_manifest(v{})", v.header.version);
+            match catch(AssertUnwindSafe(|| InstallManifestBuilder::from_manifest(&v).build().map_err(es))) {
+                Err(p) => fail("from-manifest-build-fails", format!("panic: {p}"), None),
+                Ok(Err(e)) => fail("from-manifest-build-fails", e, None),
+                Ok(Ok(x)) => match x.build().map_err(es) {
+                    Err(e) => fail("from-manifest-not-serialisable", e, None),
+                    Ok(b) => match catch(AssertUnwindSafe(|| InstallManifest::parse(&b).map_err(es))) {
+                        Ok(Ok(v2)) => {
+                            if v2 != v {
+                                fail("from-manifest-changes-content", first_diff(&dbg(&v), &dbg(&v2)), Some(b));
+                            }
+                        }
+                        Ok(Err(e)) => fail("from-manifest-not-parseable", e, Some(b)),
+                        Err(p) => fail("from-manifest-not-parseable", format!("panic: {p}"), Some(b)),
+                    },
+                },
+            }
+        }
+        "download" => {
+            let v = DownloadManifest::parse(input).ok()?;
+            label = format!("download:from_manifest(v{},cks={},fs={})", v.header.version(), v.header.has_checksum() as u8, v.header.flag_size());
+            match catch(AssertUnwindSafe(|| DownloadManifestBuilder::from_manifest(&v).build().map_err(es))) {
+                Err(p) => fail("from-manifest-build-fails", format!("panic: {p}"), None),
+                Ok(Err(e)) => fail("from-manifest-build-fails", e, None),
+                Ok(Ok(x)) => match x.build().map_err(es) {
+                    Err(e) => fail("from-manifest-not-serialisable", e, None),
+                    Ok(b) => match catch(AssertUnwindSafe(|| DownloadManifest::parse(&b).map_err(es))) {
+                        Ok(Ok(v2)) => {
+                            // the raw has_checksum byte (any non-zero value) is an encoding detail the
+                            // builder normalises to 1: compared through the accessors
+                            let (l0, l) = (dl_logical(&v), dl_logical(&v2));
+                            if l != l0 {
+                                fail("from-manifest-changes-content", first_diff(&l0, &l), Some(b));
+                            }
+                        }
+                        Ok(Err(e)) => fail("from-manifest-not-parseable", e, Some(b)),
+                        Err(p) => fail("from-manifest-not-parseable", format!("panic: {p}"), Some(b)),
+                    },
+                },
+            }
+        }
+        "encoding" => {
+            let v = <EncodingFile as CascFormat>::parse(input).ok()?;
+            label = format!("encoding:from_encoding_file(cps={},eps={})", v.header.ckey_page_size_kb, v.header.ekey_page_size_kb);
+            let l0 = enc_logical(&v);
+            let round = |b: EncodingBuilder| -> Result<(Vec<u8>, EncodingFile), String> {
+                let x = b.build().map_err(es)?;
+                let bytes = CascFormat::build(&x).map_err(|e| format!("serialise: {e}"))?;
+                let v2 = <EncodingFile as CascFormat>::parse(&bytes).map_err(|e| format!("parse: {e}"))?;
+                Ok((bytes, v2))
+            };
+            match catch(AssertUnwindSafe(|| round(EncodingBuilder::from_encoding_file(&v)))) {
+                Err(p) => fail("from-encoding-file-build-fails", format!("panic: {p}"), None),
+                Ok(Err(e)) => fail("from-encoding-file-build-fails", e, None),
+                Ok(Ok((b, v2))) => {
+                    let l = enc_logical(&v2);
+                    if l != l0 {
+                        fail("from-encoding-file-changes-content", first_diff(&l0, &l), Some(b));
+                    }
+                }
+            }
+        }
+        _ => return None,
+    }
+    Some((label, fails.into_inner()))
+}
+
 impl Ctx {
     /// evaluate the oracle on one input; `replay` reproduces it
     fn oracle(&mut self, fmt: &str, input: &[u8], replay: String, fixture_identity: bool) -> Option<Out> {
@@ -691,6 +1050,15 @@ impl Ctx {
                 self.s.oracle_fail(&sig, &format!("{fmt}: accepted input ({} bytes) — {k}: {}", input.len(), out.detail.chars().take(400).collect::<String>()), &[replay]);
             }
             Stage::Ok => {
+                // builder-as-mutator constructors on the accepted value
+                if let Some((label, fails)) = from_ctor(fmt, input, out.rebuilt.as_deref().unwrap_or(&[])) {
+                    self.s.tally(&format!("{label}:{}", if fails.is_empty() { "same-content" } else { "differs" }));
+                    for (step, detail, bytes) in fails {
+                        let o2 = Out { stage: Stage::Ok, detail: detail.clone(), rebuilt: bytes, logical: None, field: None };
+                        let sig = shape(fmt, &step, input, &o2);
+                        self.s.oracle_fail(&sig, &format!("{fmt}: accepted input ({} bytes) — {step}: {}", input.len(), detail.chars().take(400).collect::<String>()), &[replay.clone()]);
+                    }
+                }
                 if fixture_identity && out.rebuilt.as_deref() != Some(input) {
                     let rb = out.rebuilt.as_deref().unwrap_or(&[]);
                     let at = rb.iter().zip(input.iter()).position(|(a, b)| a != b).unwrap_or(rb.len().min(input.len()));
@@ -757,6 +1125,7 @@ impl Ctx {
             "size" => "size",
             "zbs" => "zbsdiff",
             "pidx" => "pindex",
+            "root" => "root",
             _ => return "bad-op".into(),
         };
         let Some(out) = self.oracle(mfmt, input, req.to_string(), false) else { return "bad-op".into() };
@@ -765,6 +1134,7 @@ impl Ctx {
             "inst" => InstallManifest::parse(input).ok().map(|m| format!("v={} t={} e={}", m.header.version, m.tags.len(), m.entries.len())),
             "dl" => DownloadManifest::parse(input).ok().map(|m| format!("v={} e={} t={}", m.header.version(), m.entries.len(), m.tags.len())),
             "size" => SizeManifest::parse(input).ok().map(|m| format!("v={} e={} t={} total={}", m.header.version(), m.entries.len(), m.tags.len(), m.header.total_size())),
+            "root" => RootFile::parse(input).ok().map(|r| format!("v={} b={} r={}", ver_num(r.version), r.blocks.len(), r.blocks.iter().map(|b| b.records.len()).sum::<usize>())),
             "pidx" => <PatchIndex as CascFormat>::parse(input).ok().map(|p| {
                 let h = &p.header;
                 let bt: Vec<String> = h.blocks.iter().map(|b| format!("{}:{}", b.block_type, b.block_size)).collect();
@@ -797,6 +1167,130 @@ impl Ctx {
         }
     }
 
+    /// `rp`: RootBuilder on a program. K: the built bytes (length + hash) against the model.
+    /// O (builder form): the parsed records are the program's records — as a multiset with the
+    /// flags of their blocks; a FileDataID added twice to one block must come back twice.
+    fn rp_resp(&mut self, ver: RootVersion, recs: &[RRec], req: &str) -> (String, Option<Vec<u8>>) {
+        let built = catch(AssertUnwindSafe(|| {
+            let mut b = RootBuilder::new(ver);
+            for r in recs {
+                b.add_file_with_hash(FileDataId::new(r.0), ContentKey::from_bytes(r.1), r.2, LocaleFlags::new(r.3), ContentFlags::new(r.4));
+            }
+            b.build().map_err(es)
+        }));
+        let bytes = match built {
+            Err(_) => {
+                self.s.case(None);
+                self.s.oracle_fail("root-builder-panics", &format!("RootBuilder({ver:?}) panics on a program of {} records", recs.len()), &[req.to_string()]);
+                return ("panic".into(), None);
+            }
+            Ok(Err(e)) => {
+                self.s.case(None);
+                if !recs.is_empty() {
+                    self.s.oracle_fail("root-builder-refuses", &format!("RootBuilder({ver:?}) refuses a program of {} records: {e}", recs.len()), &[req.to_string()]);
+                }
+                return ("err".into(), None);
+            }
+            Ok(Ok(b)) => b,
+        };
+        // shape of the program, for the tally and the sig
+        let mut seen = std::collections::BTreeSet::new();
+        let repeated = recs.iter().any(|r| !seen.insert((r.0, r.3, r.4)));
+        let sorted_in = recs.windows(2).all(|w| w[0].0 <= w[1].0);
+        let shape = if repeated { "repeated-fdid-in-block" } else if !sorted_in { "unsorted-insertion" } else { "increasing-fdids" };
+        self.s.tally(&format!("root:program:{:?}:{shape}", ver));
+        self.s.case(Some(&format!("rp:{:016x}:{}", fnv64(req.as_bytes()), recs.len())));
+        if v2_window_recs(ver, recs) {
+            // known finding (V2 small-header window): reported on the bytes' own line
+            self.s.tally("root:program:v2-small-header-window");
+        } else {
+            match catch(AssertUnwindSafe(|| RootFile::parse(&bytes))) {
+                Ok(Ok(v)) => {
+                    let (want, got) = (root_logical_of(ver, recs), root_logical(&v));
+                    if want != got {
+                        let at = want.bytes().zip(got.bytes()).position(|(a, b)| a != b).unwrap_or(want.len().min(got.len()));
+                        let cut = |s: &str| s.chars().skip(at.saturating_sub(40)).take(120).collect::<String>();
+                        self.s.oracle_fail(
+                            &format!("root-builder-value-differs-{shape}"),
+                            &format!("RootBuilder({ver:?}) program of {} records: parse(build) has other records — program …{}… parsed …{}…", recs.len(), cut(&want), cut(&got)),
+                            &[req.to_string()],
+                        );
+                        self.s.tally("root:builder-value-differs");
+                    } else {
+                        self.s.tally("root:builder-value-eq");
+                    }
+                }
+                // a rejected builder output is reported by the builder-form check on the bytes
+                _ => self.s.tally("root:program:output-rejected"),
+            }
+        }
+        (format!("ok n={} h={:016x}", bytes.len(), fnv64(&bytes)), Some(bytes))
+    }
+
+    /// `ap`: ArchiveIndexBuilder::with_config(ks, ob, 4) on a program -> build -> parse ->
+    /// from_archive_index -> build -> parse. K: the entries read back at the end against the model.
+    /// O: the first parse gives the program's entries under the chosen layout (builder form), the
+    /// builder loaded from the parsed index writes the same bytes, the second parse the same content.
+    fn ap_resp(&mut self, ks: u8, ob: u8, ents: &[(Vec<u8>, u32, u64)], req: &str) -> (String, Option<Vec<u8>>) {
+        let run = catch(AssertUnwindSafe(|| {
+            let mut b = ArchiveIndexBuilder::with_config(ks, ob, 4);
+            for (k, sz, off) in ents {
+                b.add_entry(k.clone(), *sz, *off);
+            }
+            let b1 = aidx_builder_bytes(b).map_err(|e| ("build", e, None))?;
+            let v1 = aidx_parse(&b1).map_err(|e| ("parse", e, Some(b1.clone())))?;
+            let b2 = aidx_builder_bytes(ArchiveIndexBuilder::from_archive_index(&v1)).map_err(|e| ("from-archive-index-build", e, Some(b1.clone())))?;
+            let v2 = aidx_parse(&b2).map_err(|e| ("from-archive-index-parse", e, Some(b1.clone())))?;
+            Ok::<_, (&str, String, Option<Vec<u8>>)>((b1, v1, b2, v2))
+        }));
+        let o = |bytes: Option<Vec<u8>>, detail: &str| Out { stage: Stage::Ok, detail: detail.to_string(), rebuilt: bytes, logical: None, field: None };
+        self.s.tally(&format!("aidx:program(ks={ks},ob={ob})"));
+        match run {
+            Err(p) => {
+                self.s.case(None);
+                self.s.oracle_fail("aidx-program-panics", &format!("archive index program (ks {ks}, offset bytes {ob}, {} entries) panics: {p}", ents.len()), &[req.to_string()]);
+                ("panic".into(), None)
+            }
+            Ok(Err((step, e, bytes))) => {
+                self.s.case(None);
+                let b = bytes.clone().unwrap_or_default();
+                let sig = shape("aidx", &format!("program-{step}-fails"), &b, &o(None, &e));
+                self.s.oracle_fail(&sig, &format!("archive index program (ks {ks}, offset bytes {ob}, {} entries): {step} fails: {e}", ents.len()), &[req.to_string()]);
+                ("err".into(), bytes)
+            }
+            Ok(Ok((b1, v1, b2, v2))) => {
+                self.s.case(Some(&format!("ap:{:016x}:{}", fnv64(req.as_bytes()), ents.len())));
+                // expected: the program's entries, sorted by key (stable), values in the layout's widths
+                let mut want: Vec<IndexEntry> = ents
+                    .iter()
+                    .map(|(k, sz, off)| IndexEntry { encoding_key: k.clone(), size: *sz, offset: if ob == 6 { off & 0xFFFF_FFFF } else { *off }, archive_index: if ob == 6 { Some((off >> 32) as u16) } else { None } })
+                    .collect();
+                want.sort();
+                let want_l = format!("ks={ks} ob={ob} sb=4 hb=8 n={} entries={}", want.len(), want.iter().map(aidx_entry_str).collect::<Vec<_>>().join(";"));
+                let (l1, l2) = (aidx_logical(&v1), aidx_logical(&v2));
+                let diff = |a: &str, b: &str| {
+                    let at = a.bytes().zip(b.bytes()).position(|(x, y)| x != y).unwrap_or(a.len().min(b.len()));
+                    let cut = |s: &str| s.chars().skip(at.saturating_sub(40)).take(110).collect::<String>();
+                    format!("want …{}… got …{}…", cut(a), cut(b))
+                };
+                if l1 != want_l {
+                    let sig = shape("aidx", "builder-value-differs", &b1, &o(None, ""));
+                    self.s.oracle_fail(&sig, &format!("archive index program (ks {ks}, offset bytes {ob}, {} entries): parse(build) is not the program: {}", ents.len(), diff(&want_l, &l1)), &[req.to_string()]);
+                } else if l2 != l1 {
+                    let sig = shape("aidx", "from-archive-index-changes-content", &b1, &o(None, ""));
+                    self.s.oracle_fail(&sig, &format!("archive index program (ks {ks}, offset bytes {ob}, {} entries): from_archive_index -> build -> parse: {}", ents.len(), diff(&l1, &l2)), &[req.to_string()]);
+                } else if b2 != b1 {
+                    let sig = shape("aidx", "from-archive-index-bytes-differ", &b1, &o(None, ""));
+                    self.s.oracle_fail(&sig, &format!("archive index program (ks {ks}, offset bytes {ob}, {} entries): the builder loaded from its own parsed output writes other bytes ({} / {})", ents.len(), b2.len(), b1.len()), &[req.to_string()]);
+                } else {
+                    self.s.tally("aidx:program:from_archive_index-byte-identical");
+                }
+                let listing = v2.entries.iter().map(|e| format!("{}:{}:{}:{}", hex(&e.encoding_key), e.size, e.offset, e.archive_index.map_or("-".to_string(), |a| a.to_string()))).collect::<Vec<_>>().join(";");
+                (format!("ok n={} h={:016x}", v2.entries.len(), fnv64(listing.as_bytes())), Some(b1))
+            }
+        }
+    }
+
     fn run_req(&mut self, line: &str) {
         let toks: Vec<&str> = line.split(' ').filter(|t| !t.is_empty()).collect();
         match toks.as_slice() {
@@ -820,6 +1314,20 @@ impl Ctx {
                 (Some(fl), Some(b)) => {
                     let r = tc_resp(fl, &b);
                     self.s.case(None);
+                    self.s.line(line, &r);
+                }
+                _ => self.s.line(line, "bad-op"),
+            },
+            ["rp", ver, recs] => match (ver_of(ver), parse_rrecs(recs)) {
+                (Some(ver), Some(recs)) => {
+                    let (r, _) = self.rp_resp(ver, &recs, line);
+                    self.s.line(line, &r);
+                }
+                _ => self.s.line(line, "bad-op"),
+            },
+            ["ap", ks, ob, ents] => match (ks.parse::<u8>().ok(), ob.parse::<u8>().ok(), parse_aents(ents)) {
+                (Some(ks), Some(ob), Some(ents)) if (1..=16).contains(&ks) && (4..=6).contains(&ob) && ents.iter().all(|e| e.0.len() == ks as usize) => {
+                    let (r, _) = self.ap_resp(ks, ob, &ents, line);
                     self.s.line(line, &r);
                 }
                 _ => self.s.line(line, "bad-op"),
@@ -883,6 +1391,67 @@ fn tc_resp(flags: u32, data: &[u8]) -> String {
 
 // ---------------------------------------------------------------------------------------------
 // builder programs
+
+fn ver_of(t: &str) -> Option<RootVersion> {
+    Some(match t {
+        "1" => RootVersion::V1,
+        "2" => RootVersion::V2,
+        "3" => RootVersion::V3,
+        "4" => RootVersion::V4,
+        _ => return None,
+    })
+}
+
+fn ver_num(v: RootVersion) -> u32 {
+    match v {
+        RootVersion::V1 => 1,
+        RootVersion::V2 => 2,
+        RootVersion::V3 => 3,
+        RootVersion::V4 => 4,
+    }
+}
+
+fn rrecs_text(recs: &[RRec]) -> String {
+    if recs.is_empty() {
+        return "-".into();
+    }
+    recs.iter().map(|r| format!("{},{},{},{},{}", r.0, hex(&r.1), r.2.map_or("-".to_string(), |h| h.to_string()), r.3, r.4)).collect::<Vec<_>>().join(";")
+}
+
+fn parse_rrecs(t: &str) -> Option<Vec<RRec>> {
+    if t == "-" {
+        return Some(vec![]);
+    }
+    let mut v = vec![];
+    for part in t.split(';') {
+        let f: Vec<&str> = part.split(',').collect();
+        let [fd, ck, nh, loc, cf] = f.as_slice() else { return None };
+        let ck: [u8; 16] = unhex(ck)?.try_into().ok()?;
+        let nh = if *nh == "-" { None } else { Some(nh.parse::<u64>().ok()?) };
+        v.push((fd.parse().ok()?, ck, nh, loc.parse().ok()?, cf.parse().ok()?));
+    }
+    Some(v)
+}
+
+fn aents_text(ents: &[(Vec<u8>, u32, u64)]) -> String {
+    if ents.is_empty() {
+        return "-".into();
+    }
+    ents.iter().map(|(k, s, o)| format!("{},{s},{o}", hex(k))).collect::<Vec<_>>().join(";")
+}
+
+fn parse_aents(t: &str) -> Option<Vec<(Vec<u8>, u32, u64)>> {
+    if t == "-" {
+        return Some(vec![]);
+    }
+    let mut v = vec![];
+    for part in t.split(';') {
+        let f: Vec<&str> = part.split(',').collect();
+        let [k, s, o] = f.as_slice() else { return None };
+        v.push((unhex(k)?, s.parse().ok()?, o.parse().ok()?));
+    }
+    Some(v)
+}
 
 fn k16(rng: &mut Rng) -> [u8; 16] {
     let mut k = [0u8; 16];
@@ -1043,7 +1612,9 @@ fn gen_blte(rng: &mut Rng) -> Option<Vec<u8>> {
 }
 
 fn gen_encoding(rng: &mut Rng) -> Option<Vec<u8>> {
-    let mut b = EncodingBuilder::new().with_page_sizes(1, 1);
+    // CKey and EKey page sizes differ in most programs (a rebuild that swaps them is visible)
+    let (cps, eps) = *rng.pick(&[(1u16, 1u16), (1, 2), (2, 1), (4, 1), (1, 4), (2, 4)]);
+    let mut b = EncodingBuilder::new().with_page_sizes(cps, eps);
     let n = rng.range(1, 60);
     let especs = ["n", "z", "b:{256K*=z}", "b:{164=z,16K*565=z,1656=z}"];
     for i in 0..n {
@@ -1063,50 +1634,177 @@ fn gen_encoding(rng: &mut Rng) -> Option<Vec<u8>> {
     f.build().ok()
 }
 
-fn gen_aidx(rng: &mut Rng, group: bool) -> Option<Vec<u8>> {
+fn gen_agroup(rng: &mut Rng) -> Option<Vec<u8>> {
     let n = *rng.pick(&[1u64, 2, 50, 156, 157, 158, 314, 315]);
     let mut out = Vec::new();
-    if group {
-        let mut b = ArchiveGroupBuilder::new();
-        for i in 0..n {
-            let mut k = k16(rng).to_vec();
-            k[0] = (i % 250) as u8 + 1;
-            b.add_entry(ArchiveGroupEntry::new(k, rng.below(500) as u16, rng.next() as u32, rng.next() as u32 | 1));
-        }
-        b.build(Cursor::new(&mut out)).ok()?;
-    } else {
-        let ks = *rng.pick(&[16u8, 9, 16, 16]);
-        let ob = *rng.pick(&[4u8, 4, 5]);
-        let mut b = ArchiveIndexBuilder::with_config(ks, ob, 4);
-        for i in 0..n {
-            let mut k = rng.bytes(ks as usize);
-            k[0] = (i % 250) as u8 + 1;
-            b.add_entry(k, rng.next() as u32 | 1, rng.next() % (1u64 << 31));
-        }
-        b.build(Cursor::new(&mut out)).ok()?;
+    let mut b = ArchiveGroupBuilder::new();
+    for i in 0..n {
+        let mut k = k16(rng).to_vec();
+        k[0] = (i % 250) as u8 + 1;
+        b.add_entry(ArchiveGroupEntry::new(k, rng.below(500) as u16, rng.next() as u32, rng.next() as u32 | 1));
     }
+    b.build(Cursor::new(&mut out)).ok()?;
     Some(out)
 }
 
-fn gen_root(rng: &mut Rng) -> Option<Vec<u8>> {
-    let ver = *rng.pick(&[RootVersion::V1, RootVersion::V2, RootVersion::V3, RootVersion::V4]);
-    let mut b = RootBuilder::new(ver);
-    let named = rng.chance(1, 2);
-    let nblocks = rng.range(1, 3);
-    let mut fd = rng.below(1000) as u32;
-    let n = *rng.pick(&[1u64, 3, 15, 16, 17, 30, 99, 100, 101, 120]);
+/// archive-index builder program: every record layout the parser accepts (key size 1..16, offset
+/// width 4 / 5 / 6 bytes), entry counts around the page capacity of THAT layout, locations at the
+/// boundaries of the offset width (a 5-byte offset above 4 GiB, a 6-byte location with a non-zero
+/// archive index)
+fn gen_aidx_program(rng: &mut Rng) -> (u8, u8, Vec<(Vec<u8>, u32, u64)>) {
+    let ks = *rng.pick(&[16u8, 16, 16, 9, 9, 12, 4, 2]);
+    let ob = *rng.pick(&[4u8, 5, 5, 6, 6]);
+    let cap = 4096 / (ks as u64 + 4 + ob as u64);
+    let n = match rng.below(9) {
+        0 => 1,
+        1 => 2,
+        2 => 50,
+        3 => cap - 1,
+        4 => cap,
+        5 => cap + 1,
+        6 => 2 * cap,
+        7 => 2 * cap + 1,
+        _ => rng.range(3, 40),
+    };
+    let top: u64 = 1u64 << (8 * ob as u32);
+    let mut ents = vec![];
     for i in 0..n {
-        fd += rng.range(1, 5) as u32;
-        let blk = i % nblocks;
-        let loc = [LocaleFlags::ENUS, LocaleFlags::DEDE, LocaleFlags::ENUS | LocaleFlags::FRFR][blk as usize];
-        let mut cf = [0u64, 0x8, 0x80][blk as usize];
+        let mut k = rng.bytes(ks as usize);
+        // distinct, non-zero keys: a counter in the leading bytes
+        k[0] = ((i + 1) >> 8) as u8;
+        k[1] = (i + 1) as u8;
+        let off = match rng.below(8) {
+            0 => 0,
+            1 => top - 1,
+            2 => top / 2,
+            3 => 0xFFFF_FFFF,
+            4 if ob > 4 => 0x1_0000_0000 + i * 4096,
+            5 if ob > 4 => 0x1_0000_0000,
+            _ => rng.next() % top,
+        };
+        ents.push((k, rng.next() as u32 | 1, off));
+    }
+    // insertion order: the builder sorts
+    for i in (1..ents.len()).rev() {
+        let j = rng.below(i as u64 + 1) as usize;
+        ents.swap(i, j);
+    }
+    (ks, ob, ents)
+}
+
+const ROOT_VERSIONS: [RootVersion; 4] = [RootVersion::V1, RootVersion::V2, RootVersion::V3, RootVersion::V4];
+
+/// root builder program. FileDataIDs: strictly increasing (the shape of CDN files), or with the
+/// same ID added twice to one block (two content keys for one ID — the builder does not
+/// de-duplicate), neighbours (delta 0), all equal, inserted in decreasing / random order, and the
+/// ends of the u32 range; V1–V4, 1–3 blocks, named / unnamed.
+fn gen_root_program(rng: &mut Rng) -> (RootVersion, Vec<RRec>) {
+    let ver = *rng.pick(&ROOT_VERSIONS);
+    let named = rng.chance(1, 2);
+    let nblocks = rng.range(1, 3) as usize;
+    let n = *rng.pick(&[1u64, 2, 3, 5, 15, 16, 17, 30, 99, 100, 101, 120]) as usize;
+    let shape = rng.below(9);
+    let mut fds: Vec<u32> = vec![];
+    let mut fd = rng.below(1000) as u32;
+    let edges = [0u32, 1, u32::MAX, u32::MAX - 1, 0x8000_0000, 0x7FFF_FFFF, 0xFFFF_FF00];
+    for i in 0..n {
+        match shape {
+            0 | 1 => fd += rng.range(1, 5) as u32,           // strictly increasing
+            2 => fd += rng.below(3) as u32,                  // repeats and neighbours
+            3 => {}                                          // all equal
+            4 => fd = 1000 + rng.below(n as u64 / 2 + 1) as u32, // random order, many repeats
+            5 => fd = *rng.pick(&edges),                     // ends of the range, repeated
+            6 => fd = 5000 - 3 * i as u32,                   // decreasing insertion order
+            7 => {
+                if i % 2 == 0 {
+                    fd += rng.range(1, 200) as u32; // pairs: every ID twice
+                }
+            }
+            _ => fd = if rng.chance(1, 3) { *rng.pick(&edges) } else { fd.wrapping_add(rng.below(4) as u32) },
+        }
+        fds.push(fd);
+    }
+    let locs = [LocaleFlags::ENUS, LocaleFlags::DEDE, LocaleFlags::ENUS | LocaleFlags::FRFR];
+    let mut recs = vec![];
+    for (i, fd) in fds.iter().enumerate() {
+        // increasing shapes spread round-robin (as before); the others keep runs of equal / close
+        // IDs together in one block
+        let blk = if shape <= 1 { i % nblocks } else if shape == 7 { (i / 2) % nblocks } else { rng.below(nblocks as u64) as usize };
+        let mut cf = [0u64, 0x8, 0x80][blk];
+        if ver == RootVersion::V4 && blk == 1 {
+            cf |= 1 << 33; // 40-bit content flags
+        }
         let nh = if ver == RootVersion::V1 || named { Some(rng.next()) } else { None };
         if ver != RootVersion::V1 && !named {
-            cf |= 0x1000_0000;
+            cf |= ContentFlags::NO_NAME_HASH;
         }
-        b.add_file_with_hash(FileDataId::new(fd), ContentKey::from_bytes(k16(rng)), nh, LocaleFlags::new(loc), ContentFlags::new(cf));
+        recs.push((*fd, k16(rng), nh, locs[blk], cf));
     }
-    b.build().ok()
+    (ver, recs)
+}
+
+/// hand-framed root file: `blocks` = (locale, content flags, [(delta, content key, name hash)]);
+/// the FileDataID column is written as the DELTAS given (not derived from IDs)
+fn frame_root(ver: RootVersion, blocks: &[(u32, u64, Vec<(u32, [u8; 16], u64)>)]) -> Vec<u8> {
+    let named_block = |cf: u64| ver == RootVersion::V1 || cf & ContentFlags::NO_NAME_HASH == 0;
+    let total: u32 = blocks.iter().map(|b| b.2.len() as u32).sum();
+    let named: u32 = blocks.iter().filter(|b| named_block(b.1)).map(|b| b.2.len() as u32).sum();
+    let mut d: Vec<u8> = vec![];
+    match ver {
+        RootVersion::V1 => {}
+        RootVersion::V2 => {
+            d.extend_from_slice(b"TSFM");
+            d.extend_from_slice(&total.to_le_bytes());
+            d.extend_from_slice(&named.to_le_bytes());
+        }
+        RootVersion::V3 | RootVersion::V4 => {
+            d.extend_from_slice(b"TSFM");
+            d.extend_from_slice(&20u32.to_le_bytes());
+            d.extend_from_slice(&(if ver == RootVersion::V3 { 3u32 } else { 4 }).to_le_bytes());
+            d.extend_from_slice(&total.to_le_bytes());
+            d.extend_from_slice(&named.to_le_bytes());
+        }
+    }
+    for (loc, cf, recs) in blocks {
+        let n = recs.len() as u32;
+        d.extend_from_slice(&n.to_le_bytes());
+        match ver {
+            RootVersion::V1 => {
+                d.extend_from_slice(&(*cf as u32).to_le_bytes());
+                d.extend_from_slice(&loc.to_le_bytes());
+            }
+            RootVersion::V2 | RootVersion::V3 => {
+                d.extend_from_slice(&loc.to_le_bytes());
+                d.extend_from_slice(&(*cf as u32).to_le_bytes());
+                d.extend_from_slice(&[0u8; 5]);
+            }
+            RootVersion::V4 => {
+                d.extend_from_slice(&loc.to_le_bytes());
+                d.extend_from_slice(&(*cf as u32).to_le_bytes());
+                d.push((*cf >> 32) as u8);
+                d.extend_from_slice(&[0u8; 5]);
+            }
+        }
+        for r in recs {
+            d.extend_from_slice(&r.0.to_le_bytes());
+        }
+        if ver == RootVersion::V1 {
+            for r in recs {
+                d.extend_from_slice(&r.1);
+                d.extend_from_slice(&r.2.to_le_bytes());
+            }
+        } else {
+            for r in recs {
+                d.extend_from_slice(&r.1);
+            }
+            if named_block(*cf) {
+                for r in recs {
+                    d.extend_from_slice(&r.2.to_le_bytes());
+                }
+            }
+        }
+    }
+    d
 }
 
 fn gen_tvfs(rng: &mut Rng) -> Option<Vec<u8>> {
@@ -1284,9 +1982,7 @@ fn gen_builder(rng: &mut Rng, fmt: &str) -> Option<Vec<u8>> {
     match fmt {
         "blte" => gen_blte(rng),
         "encoding" => gen_encoding(rng),
-        "aidx" => gen_aidx(rng, false),
-        "agroup" => gen_aidx(rng, true),
-        "root" => gen_root(rng),
+        "agroup" => gen_agroup(rng),
         "install" => gen_install(rng).map(|x| x.1),
         "download" => gen_download(rng).map(|x| x.1),
         "size" => gen_size(rng, false).and_then(|r| r.ok()).map(|x| x.1),
@@ -1320,7 +2016,7 @@ fn main() {
     quiet_panics();
     let args = Args::parse();
     let mut cx = Ctx { s: Session::new(&args.out), fixtures: load_fixtures() };
-    cx.s.rule = "inputs: (a) every CDN fixture of crates/cascette-formats/test_fixtures unmutated (byte-identity test) and under 1-3 random mutations aimed at header fields, counts, sizes, footers, truncation, trailing bytes, small inserts/deletes (text formats: white space, separators, comments, CR/LF, non-ASCII); (b) outputs of every format's builder on random programs, unmutated (builder-form claim) and mutated; (c) hand-framed size/download/install/ZBSDIFF headers over every version, key size, esize width, has_checksum byte 0/1/2/255, flag size 0-5, reserved bytes, sizes at 0/2^31/10^9+-1; hand-framed patch indices over every extra-header shape (absent, key size 0..16, > 16, with extra data, overrunning), block-type sequences (1/2/8/unknown, 2 before/after 8, repeated), header_size before / at / after the end of the descriptors, block-8 data offsets 0/8/14/20/300, key sizes 0..200 with and without entries, wrong counts / sizes / data_size, each also with 1-3 mutations and data_size repaired; (d) component lines for TVFS: VfsTable::parse on random entry sequences under cft_table_size at every offset-width boundary (tables written for the header's width or for another one), ContainerFileTable::parse+build on random lengths with and without slack. Each whole-file input runs parse->build->parse->build on the real code. non-trivial = the first parse ACCEPTED the input (so the fixed-point claim was actually evaluated); distinct = (format, input hash)".into();
+    cx.s.rule = "inputs: (a) every CDN fixture of crates/cascette-formats/test_fixtures unmutated (byte-identity test) and under 1-3 random mutations aimed at header fields, counts, sizes, footers, truncation, trailing bytes, small inserts/deletes (text formats: white space, separators, comments, CR/LF, non-ASCII); (b) outputs of every format's builder on random programs, unmutated (builder-form claim) and mutated; (c) hand-framed size/download/install/ZBSDIFF headers over every version, key size, esize width, has_checksum byte 0/1/2/255, flag size 0-5, reserved bytes, sizes at 0/2^31/10^9+-1; hand-framed patch indices over every extra-header shape (absent, key size 0..16, > 16, with extra data, overrunning), block-type sequences (1/2/8/unknown, 2 before/after 8, repeated), header_size before / at / after the end of the descriptors, block-8 data offsets 0/8/14/20/300, key sizes 0..200 with and without entries, wrong counts / sizes / data_size, each also with 1-3 mutations and data_size repaired; (d) component lines for TVFS: VfsTable::parse on random entry sequences under cft_table_size at every offset-width boundary (tables written for the header's width or for another one), ContainerFileTable::parse+build on random lengths with and without slack; (e) root builder programs V1-V4 (`rp`): 1-3 blocks, named / unnamed, FileDataIDs strictly increasing, or the same ID added twice to one block / all equal / neighbours / pairs / decreasing or random insertion order / both ends of the u32 range, and hand-framed root files V1-V4 whose FileDataID column is given as deltas (0xFFFFFFFF = same ID again, 0xFFFFFFFE.. = decreasing, 0, wrap past u32::MAX), 1-3 blocks of which two often share (locale, content) flags (merged on rebuild), each also mutated — all through the root model as well; (f) archive-index builder programs (`ap`) on every record layout (key size 2/4/9/12/16 x offset width 4/5/6), entry counts around the page capacity of that layout, locations at the ends of the offset width (5-byte offsets above 4 GiB, 6-byte archive:offset), taken through build -> parse -> from_archive_index -> build -> parse; archive-group builder outputs also as archive indices; encoding builder programs with unequal CKey/EKey page sizes; (g) builder-as-mutator: EVERY accepted input of archive index / root / install / download / encoding that reached the fixed point is loaded into the builder by its from_* constructor, built, serialised and parsed back (same logical content), archive index and root additionally with one entry added (location at the top of the offset width; FileDataID repeating / next to one of the block or at an end of the range) and removed again. Each whole-file input runs parse->build->parse->build on the real code. non-trivial = the first parse ACCEPTED the input (so the fixed-point claim was actually evaluated); distinct = (format, input hash)".into();
     if let Some(p) = &args.replay {
         for l in read_case(p) {
             cx.run_req(&l);
@@ -1415,11 +2111,30 @@ fn main() {
     let rounds = if th { 400 } else { 60 };
     for fmt in FORMATS {
         for _ in 0..rounds {
-            let Some(bytes) = gen_builder(&mut rng, fmt) else {
+            // root / archive index: the PROGRAM is a request line of its own (`rp` / `ap`)
+            let generated = match *fmt {
+                "root" => {
+                    let (ver, recs) = gen_root_program(&mut rng);
+                    let req = format!("rp {} {}", ver_num(ver), rrecs_text(&recs));
+                    let (r, b) = cx.rp_resp(ver, &recs, &req);
+                    cx.s.line(&req, &r);
+                    b
+                }
+                "aidx" => {
+                    let (ks, ob, ents) = gen_aidx_program(&mut rng);
+                    let req = format!("ap {ks} {ob} {}", aents_text(&ents));
+                    let (r, b) = cx.ap_resp(ks, ob, &ents, &req);
+                    cx.s.line(&req, &r);
+                    b
+                }
+                _ => gen_builder(&mut rng, fmt),
+            };
+            let Some(bytes) = generated else {
                 cx.s.tally(&format!("{fmt}:builder-refused"));
                 continue;
             };
             let modelled = match *fmt {
+                "root" => Some("root"),
                 "install" => Some("inst"),
                 "download" => Some("dl"),
                 "size" => Some("size"),
@@ -1443,6 +2158,11 @@ fn main() {
                 let sh = shape(fmt, "builder-output-rejected", &bytes, &Out { stage: Stage::Rejected, detail: String::new(), rebuilt: None, logical: None, field: None });
                 cx.s.oracle_fail(&sh, &format!("{fmt}: the builder's own output ({} bytes) is not accepted by the parser", bytes.len()), &[req]);
                 cx.s.tally(&format!("{fmt}:builder-output-rejected"));
+            }
+            // an archive group file is an archive index with 6-byte locations: the index parser,
+            // its rebuild and from_archive_index on that layout
+            if *fmt == "agroup" {
+                cx.o_inline("aidx", &bytes);
             }
             // TVFS: a CFT size just above 255 with slack, so that the rebuilt (slack-free) table
             // drops to a one-byte offset width while the VFS table bytes are kept as they were
@@ -1544,6 +2264,7 @@ fn main() {
 
     // (c) hand-framed headers for the modelled formats
     framed(&mut cx, &mut rng, th);
+    framed_root(&mut cx, &mut rng, th);
     framed_pindex(&mut cx, &mut rng, th);
     framed_tvfs_tables(&mut cx, &mut rng, th);
     cx.s.finish();
@@ -1749,6 +2470,58 @@ fn framed(cx: &mut Ctx, rng: &mut Rng, th: bool) {
             d.truncate(l - rng.below(6.min(l as u64)) as usize);
         }
         cx.m_line("zbs", &d);
+    }
+}
+
+// ---- root V1–V4: blocks whose FileDataID column is given as DELTAS — 0xFFFFFFFF (the same ID
+// again), 0xFFFFFFFE… (decreasing IDs), 0 (neighbours), wrap-around past u32::MAX — and files
+// with two blocks of equal (locale, content) flags, which the rebuild merges into one block
+fn framed_root(cx: &mut Ctx, rng: &mut Rng, th: bool) {
+    let rounds = if th { 900 } else { 160 };
+    let tail: &[u32] = &[0, 0, 1, 2, 7, 0xFFFF_FFFF, 0xFFFF_FFFF, 0xFFFF_FFFF, 0xFFFF_FFFE, 0xFFFF_FFF0, 0x8000_0000, 0x7FFF_FFFF];
+    let first: &[u32] = &[0, 7, 7, 1000, u32::MAX, u32::MAX - 1, 0x8000_0000];
+    let flag_pairs: &[(u32, u64)] = &[(LocaleFlags::ENUS, 0), (LocaleFlags::ENUS, 0), (LocaleFlags::DEDE, 0x8), (LocaleFlags::ENUS | LocaleFlags::FRFR, 0x80)];
+    for _ in 0..rounds {
+        let ver = *rng.pick(&ROOT_VERSIONS);
+        let named = rng.chance(1, 2);
+        let nb = rng.range(1, 3) as usize;
+        let mut blocks = vec![];
+        for _ in 0..nb {
+            let (loc, mut cf) = *rng.pick(flag_pairs);
+            if ver != RootVersion::V1 && !named {
+                cf |= ContentFlags::NO_NAME_HASH;
+            }
+            if ver == RootVersion::V4 && rng.chance(1, 4) {
+                cf |= 1 << 33;
+            }
+            let n = *rng.pick(&[1usize, 2, 3, 3, 5, 8]);
+            let recs: Vec<(u32, [u8; 16], u64)> = (0..n)
+                .map(|i| {
+                    let d = if i == 0 {
+                        if rng.chance(1, 5) { rng.next() as u32 } else { *rng.pick(first) }
+                    } else if rng.chance(1, 8) {
+                        rng.next() as u32
+                    } else {
+                        *rng.pick(tail)
+                    };
+                    (d, k16(rng), rng.next())
+                })
+                .collect();
+            blocks.push((loc, cf, recs));
+        }
+        let kind = if blocks.iter().any(|b| b.2.iter().skip(1).any(|r| r.0 == 0xFFFF_FFFF)) {
+            "same-id-again"
+        } else if blocks.iter().any(|b| b.2.iter().skip(1).any(|r| r.0 >= 0x8000_0000)) {
+            "decreasing-ids"
+        } else {
+            "increasing-ids"
+        };
+        let shared = (0..nb).any(|i| (0..i).any(|j| blocks[i].0 == blocks[j].0 && blocks[i].1 == blocks[j].1));
+        cx.s.tally(&format!("root:framed:{ver:?}:{kind}{}", if shared { ":two-blocks-same-flags" } else { "" }));
+        let d = frame_root(ver, &blocks);
+        cx.m_line("root", &d);
+        let ms = gen_muts(rng, d.len(), false);
+        cx.m_line("root", &apply_muts(&d, &ms));
     }
 }
 
